@@ -1,5 +1,5 @@
 import Drand.Persist.Crash
-namespace Drand.Driver
+namespace Drand.Driver.CrashD
 open Drand.Persist
 
 /-- engine `crash`: one node driven through a scripted history; answers list every crash image of the step
@@ -157,4 +157,4 @@ def crashStep (s : CrashSt) (f : List String) : CrashSt × String :=
     ({ s with disk := d, running := o.isOk, hasBp := good }, outcomeBoot o)
   | _ => (s, "bad-op")
 
-end Drand.Driver
+end Drand.Driver.CrashD
